@@ -16,7 +16,7 @@ from concurrent.futures import ThreadPoolExecutor
 
 HOME = os.environ.get("VERIF_HOME", os.path.dirname(os.path.dirname(os.path.abspath(__file__))))
 REPO = os.environ.get("VERIF_REPO", "/repo")
-WORK = os.path.join(HOME, ".work")
+WORK = os.path.join(HOME, "_work")  # no dot: output handlers split file names at "."
 PY = "/venv/bin/python"
 NPROC = int(os.environ.get("VERIF_NPROC", str(os.cpu_count() or 4)))
 
